@@ -64,6 +64,31 @@ func rtInputs(c *config, stream string, ngen int) []rtInput {
 			add("spelling", fmt.Sprintf("gen%d-respelled", i), respell(newRng(c.seed, fmt.Sprintf("%s-sp-%d", stream, i)), src))
 		}
 	}
+	// llvm-stress programs and opt-transformed variants of them, made at check time (when the LLVM tools are on
+	// PATH): the seeds derive from the check's seed, so a run is reproducible
+	if stress, err := exec.LookPath("llvm-stress"); err == nil {
+		n := 12
+		if c.tier == "thorough" {
+			n = 120
+		}
+		rs := newRng(c.seed, stream+"-stress")
+		for i := 0; i < n; i++ {
+			sd, size := 1+rs.intn(1<<30), 40+rs.intn(400)
+			out, err := exec.Command(stress, "-seed", fmt.Sprint(sd), "-size", fmt.Sprint(size)).Output()
+			if err != nil {
+				continue
+			}
+			add("stress", fmt.Sprintf("llvm-stress-seed%d-size%d", sd, size), string(out))
+			if opt, err := exec.LookPath("opt"); err == nil && i%2 == 0 {
+				pass := []string{"-O1", "-O2", "-passes=instcombine,simplifycfg", "-passes=mem2reg,gvn"}[rs.intn(4)]
+				cmd := exec.Command(opt, "-S", pass, "-")
+				cmd.Stdin = strings.NewReader(string(out))
+				if out2, err := cmd.Output(); err == nil {
+					add("stress", fmt.Sprintf("llvm-stress-seed%d-size%d-opt%s", sd, size, pass), string(out2))
+				}
+			}
+		}
+	}
 	// C20 style modules (all definition categories, shuffled) and hand-written spelling variants
 	r := newRng(c.seed, stream+"-defs")
 	for i := 0; i < ngen/3+1; i++ {
@@ -537,7 +562,7 @@ func c01Llvm(c *config) {
 		return string(out), err
 	}
 	for _, in := range rtInputs(c, "c01", 20) {
-		if in.kind != "modules" && in.kind != "testdata" {
+		if in.kind != "modules" && in.kind != "testdata" && in.kind != "stress" {
 			continue
 		}
 		cx, err := canon(in.src)
